@@ -76,7 +76,7 @@ def run(tier):
                     chk.fail('cache:history-dependent-encoding', case, f'after the history write_struct returns {irep}, a fresh '
                                                                         f'encoder {mrep}')
         # (b) files
-        n = 12 if tier == 'quick' else 100
+        n = 25 if tier == 'quick' else 150
         for i in range(n):
             target = filegen.gen_spec(R, small=(i % 2 == 0))
             target['write']['data_kind'] = 'inline'
